@@ -14,7 +14,8 @@ def sto_name(b):
 class CHECK(Check):
     pid = "C01"
     entry = "LINE"
-    theorems = ["C01_roundtrip_line", "C01_field_int", "C01_field_lit", "C01_field_missing", "C01_field_date", "C01_float_decimal", "C01_float_half_unit", "C01_float_dialect", "C01_stable_line", "C01_stable_fields", "C01_setters"]
+    theorems = ["C01_roundtrip_line", "C01_field_int", "C01_field_lit", "C01_field_missing", "C01_field_date", "C01_float_decimal", "C01_float_half_unit", "C01_float_sci_shape", "C01_float_sci", "C01_float_zero", "C01_float_dialect", "C01_stable_line", "C01_stable_fields", "C01_setters", "C01_rn64_is_round_nearest_even", "C01_rn64_nearest", "C01_round_idempotent", "C01_stable_float", "C01_stable_float_zero"]
+    property_files = ["C01", "C01real"]
     rule = ("positional text layouts of 1-6 non-overlapping fields (literal, integer, float with 0-8 decimals in F/f/E/e "
             "notation and '.' or ',' separator, dates with one format or a format list) in any order with gaps x value "
             "lists from boundary-biased streams (width-boundary integers, decimal ties and their neighbours, 9.99.. "
